@@ -198,12 +198,16 @@ LEVEL["C14"] = "exploration"
 RULES["C14"] = ("replies: generated DAG benches with Requestor queries (0-3 connections per port, plain/map/filter_map, capacity 1-3 replier mailboxes, queries nested in query handlers) and QuerySource/process_query "
                 "on ST / schedule-controlled ST / MT 2-16 threads with delays at channel and task probes; the reply sequence of every query operation must equal the reference interpreter's (one reply "
                 "per accepting connection, in connection order, computed from the mapped request), every query must complete, and no query completes before the end of one of its repliers' handlers; "
+                "gates: askers query 2-6 repliers (plain/map/filter_map connections, the same replier possibly connected twice, capacity 1-4 mailboxes, a QuerySource action in the same step) whose handlers block on harness "
+                "gates that a conductor model opens in a scripted random order interleaved with spurious wake-ups of the blocked replier tasks and cooperative yields, while the asker's task wakes itself after Pending polls so "
+                "that the broadcast future is re-polled with no sub-future scheduled; oracle: reply sequence = connection list (order, filters, maps), completion stamped after the end of every contributing replier handler, one "
+                "handler run per accepting connection, step() returns Ok; "
                 "clones: random sequences of clone / connect / map_connect / filter_map_connect on harness-held clones (and clones of clones) of an Output and a Requestor whose sibling clone lives "
                 "inside a model of a running simulation (ST, MT2, MT4), interleaved with events and queries sent by the model; reference model = one shared connection list; "
-                "non-trivial = execution with more than one reply compared (replies) / sequence with a connection made through a harness-held clone followed by a send or query (clones)")
-PLAN["C14"] = {"quick": [job("native", "replies", 16, 600), job("native", "clones", 16, 600), miri("replies", 2, 4, 900)],
-               "thorough": [job("native", "replies", 16, 3000), job("native", "clones", 16, 3000), miri("replies", 8, 16, 3000), miri("clones", 2, 4, 3000),
-                            job("tsan", "replies", 8, 1800, args=["--scale", "0.05"])],
+                "non-trivial = execution with more than one reply compared (replies) / gated query with several repliers, distinct by (case, executor, completion orders) (gates) / sequence with a connection made through a harness-held clone followed by a send or query (clones)")
+PLAN["C14"] = {"quick": [job("native", "replies", 16, 600), job("native", "gates", 16, 600), job("native", "clones", 16, 600), miri("replies", 2, 4, 900), miri("gates", 2, 4, 900)],
+               "thorough": [job("native", "replies", 16, 3000), job("native", "gates", 16, 3000), job("native", "clones", 16, 3000), miri("replies", 8, 16, 3000), miri("gates", 8, 16, 3000),
+                            miri("clones", 2, 4, 3000), job("tsan", "replies", 8, 1800, args=["--scale", "0.05"]), job("tsan", "gates", 8, 1800, args=["--scale", "0.05"])],
                "min_evaluations": {"quick": 500, "thorough": 500},
                "assumptions": COMMON_ASSUMPTIONS + ["connections through clones are made between driver calls (connect takes &mut self on the harness' clone; concurrent connects while a step runs are not generated)",
-                                                   "replier completion orders are varied by schedules (task picks, yields, thread delays, capacity-1 mailboxes), not by scripted gates"]}
+                                                   "part gates: wakers are only invoked from handler code (executor threads), every gate is eventually opened whatever the schedule, so a stall is a violation"]}
